@@ -12,6 +12,7 @@ import (
 	"os"
 	"reflect"
 	"regexp"
+	"runtime/debug"
 	"runtime/pprof"
 	"strings"
 
@@ -108,9 +109,11 @@ type engine struct {
 	astart  goja.Callable
 	settle  goja.Callable
 	batch   goja.Callable
+	runh    goja.Callable
 	steps   uint64
 	limit   uint64
 	tripped bool
+	maxSeen uint64
 	idle0   goja.VerifIdleState
 	cur     string // source currently defined as G
 	async   bool
@@ -123,7 +126,10 @@ function batch(l) { for (var i = 0; i < l.length; i++) settle(l[i][0], l[i][1], 
 `
 
 func newEngine() *engine {
-	e := &engine{rt: goja.New(), limit: 4000}
+	e := &engine{rt: goja.New(), limit: 8000}
+	// no enumerated case nests deeper than ~20 frames: runaway recursion is reported as a stack overflow
+	// long before it becomes expensive
+	e.rt.SetMaxCallStackSize(100)
 	e.rt.Set("log", func(s string) { e.log = append(e.log, s) })
 	if _, err := e.rt.RunProgram(preludePrg); err != nil {
 		panic(err)
@@ -136,6 +142,7 @@ func newEngine() *engine {
 		return f
 	}
 	e.start, e.step, e.str, e.astart, e.settle, e.batch = get("start"), get("step"), get("str"), get("astart"), get("settle"), get("batch")
+	e.runh = get("runh")
 	goja.VerifSetStepHook(e.rt, func(r *goja.Runtime) {
 		e.steps++
 		if e.steps > e.limit && !e.tripped {
@@ -173,6 +180,9 @@ func (e *engine) guard(f func()) (ft *fault) {
 		}
 	}()
 	f()
+	if e.steps > e.maxSeen {
+		e.maxSeen = e.steps
+	}
 	return nil
 }
 
@@ -201,6 +211,8 @@ func (e *engine) errString(err error) string {
 		return "!" + s.String()
 	case *goja.InterruptedError:
 		return "!!interrupted"
+	case *goja.StackOverflowError:
+		return "!!stack-overflow"
 	}
 	return "!!" + err.Error()
 }
@@ -255,6 +267,41 @@ func (e *engine) genStep(self *goja.Object, ctx, op, v int) (res string, log []s
 	return res, e.takeLog(), ft
 }
 
+// genRunAll performs start() and the whole history inside one script run (the VM stacks stay warm between
+// the calls); the per-call results and logs are recovered from the "#" markers.
+func (e *engine) genRunAll(hist []Step) (res []string, logs [][]string, ft *fault) {
+	list := make([]interface{}, len(hist))
+	for i, st := range hist {
+		list[i] = []interface{}{st.Ctx, st.Op, st.V}
+	}
+	e.limit *= uint64(len(hist) + 1)
+	ft = e.guard(func() {
+		if _, err := e.runh(goja.Undefined(), e.rt.ToValue(list)); err != nil {
+			ft = &fault{"host-call-failed", e.errString(err)}
+		}
+	})
+	e.limit /= uint64(len(hist) + 1)
+	if ft == nil && e.tripped {
+		ft = &fault{"non-termination", "instruction budget exceeded"}
+	}
+	var cur []string
+	for _, l := range e.takeLog() {
+		if strings.HasPrefix(l, "#") {
+			res = append(res, l[1:])
+			logs = append(logs, cur)
+			cur = nil
+			continue
+		}
+		cur = append(cur, l)
+	}
+	if len(res) < len(hist) {
+		// the run was cut short: the remaining log belongs to the call that did not return
+		res = append(res, "")
+		logs = append(logs, cur)
+	}
+	return
+}
+
 // idleFault compares the VM's idle state with the one right after loading the prelude.
 func (e *engine) idleFault() *fault {
 	s := goja.VerifIdle(e.rt)
@@ -280,9 +327,10 @@ func idleDiff(a, b goja.VerifIdleState) string {
 // ---- worker ----
 
 type worker struct {
-	r    *core.Run
-	eng  *engine
-	sigs map[string]string // (part, body, class) -> signature of the minimised case
+	r       *core.Run
+	eng     *engine
+	sigs    map[string]string // (part, body, class) -> signature of the minimised case
+	maxSeen uint64
 }
 
 func (w *worker) engine() *engine {
@@ -292,7 +340,12 @@ func (w *worker) engine() *engine {
 	return w.eng
 }
 
-func (w *worker) discard() { w.eng = nil }
+func (w *worker) discard() {
+	if w.eng != nil && w.eng.maxSeen > w.maxSeen {
+		w.maxSeen = w.eng.maxSeen
+	}
+	w.eng = nil
+}
 
 // Violation case as stored in replay files.
 type VCase struct {
@@ -303,7 +356,8 @@ type VCase struct {
 	History []Step      `json:"history"` // with the model's expectations
 	Batch   bool        `json:"batch,omitempty"`
 	Cold    bool        `json:"cold_runtime,omitempty"`
-	At      int         `json:"at"` // index of the diverging step (-1: start)
+	OneRun  bool        `json:"one_script_run,omitempty"` // start() and all calls inside one script run
+	At      int         `json:"at"`                       // index of the diverging step (-1: start)
 	GotRes  string      `json:"got_res"`
 	GotLog  []string    `json:"got_log"`
 	Fault   string      `json:"fault,omitempty"`
@@ -326,13 +380,13 @@ func eqStrings(a, b []string) bool {
 
 // runGenHistory executes one maximal history on the engine in lock-step with the model's expectations.
 // It returns the number of transitions executed and a non-nil violation case on the first divergence.
-func (w *worker) runGenHistory(c Case, src string, hist []Step, cold bool) (n int, vc *VCase, class string) {
+func (w *worker) runGenHistory(c Case, src string, hist []Step, cold, oneRun bool) (n int, vc *VCase, class string) {
 	if cold {
 		w.discard()
 	}
 	e := w.engine()
 	mk := func(at int, res string, lg []string, ft *fault) *VCase {
-		v := &VCase{Part: "gen", Name: c.Name, Prog: c.Prog, Src: src, History: hist, At: at, GotRes: res, GotLog: lg, Cold: cold}
+		v := &VCase{Part: "gen", Name: c.Name, Prog: c.Prog, Src: src, History: hist, At: at, GotRes: res, GotLog: lg, Cold: cold, OneRun: oneRun}
 		if ft != nil {
 			v.Fault = ft.kind + ": " + ft.detail
 		}
@@ -341,6 +395,29 @@ func (w *worker) runGenHistory(c Case, src string, hist []Step, cold bool) (n in
 	if err := e.define(src, false); err != nil {
 		w.discard()
 		return 0, mk(-1, err.Error(), nil, nil), "define failed: " + errClass(err)
+	}
+	if oneRun {
+		res, logs, ft := e.genRunAll(hist)
+		for i := range res {
+			n++
+			st := hist[i]
+			if i == len(res)-1 && ft != nil {
+				w.discard()
+				return n, mk(i, res[i], logs[i], ft), "fault:" + ft.kind + ":" + ft.detail
+			}
+			if res[i] != st.Res || !eqStrings(logs[i], st.Log) {
+				w.discard()
+				return n, mk(i, res[i], logs[i], nil), diffClass(st.Res, res[i], st.Log, logs[i])
+			}
+		}
+		if ft == nil {
+			ft = e.idleFault()
+		}
+		if ft != nil {
+			w.discard()
+			return n, mk(len(hist)-1, "", nil, ft), "fault:" + ft.kind + ":" + ft.detail
+		}
+		return n, nil, ""
 	}
 	self, ft := e.genStart()
 	if ft != nil {
@@ -435,22 +512,23 @@ func bodyClass(name string) string { return strings.TrimSuffix(name, " [captured
 // ---- run ----
 
 type schedule struct {
-	name string
-	ctx  []int // by step index (cyclic)
+	name   string
+	ctx    []int // by step index (cyclic)
+	oneRun bool  // the whole history inside one script run (warm VM stacks) instead of one run per call
 }
 
 func schedules(thorough bool) []schedule {
 	s := []schedule{
-		{"top", []int{0}},
-		{"go", []int{ctxGo}},
-		{"ascending depth", []int{0, 1, 2, 3}},
-		{"descending depth", []int{3, 2, 1, 0}},
-		{"iter/ref/try stacks", []int{4, 5, 8, 6, 7}},
-		{"nested generators", []int{7, 6, 0, 7, 6}},
+		{"top", []int{0}, false},
+		{"go", []int{ctxGo}, false},
+		{"ascending depth", []int{0, 1, 2, 3}, true},
+		{"descending depth", []int{3, 2, 1, 0}, false},
+		{"iter/ref/try stacks", []int{4, 5, 8, 6, 7}, true},
+		{"nested generators", []int{7, 6, 0, 7, 6}, true},
 	}
 	if thorough {
-		s = append(s, schedule{"alternating deep/top", []int{3, 0}}, schedule{"alternating top/gen-finally", []int{0, 6}},
-			schedule{"with/for-of alternating", []int{5, 4}}, schedule{"go/deep", []int{ctxGo, 3, ctxGo, 7}})
+		s = append(s, schedule{"alternating deep/top", []int{3, 0}, true}, schedule{"alternating top/gen-finally", []int{0, 6}, false},
+			schedule{"with/for-of alternating", []int{5, 4}, true}, schedule{"go/deep", []int{ctxGo, 3, ctxGo, 7}, false})
 	}
 	return s
 }
@@ -470,6 +548,7 @@ func nontrivial(hist []Step) bool {
 }
 
 func run(r *core.Run) {
+	debug.SetGCPercent(400)
 	bounds := quickBounds()
 	histLen, prodLen := 4, 3
 	if r.Thorough() {
@@ -552,14 +631,28 @@ func run(r *core.Run) {
 	} else {
 		complete = false
 	}
+	var maxInstr uint64
+	for _, w := range workers {
+		w.discard()
+		if w.maxSeen > maxInstr {
+			maxInstr = w.maxSeen
+		}
+	}
+	r.Set("max_vm_instructions_per_driver_call", maxInstr)
 	r.Set("history_length", histLen)
 	r.Set("contexts", ctxNames)
 	r.Exhaustive(complete)
 }
 
+// stopEarly (development aid, C09_STOP=1): stop exploring once a violation has been recorded.
+func stopEarly(r *core.Run) bool { return os.Getenv("C09_STOP") != "" && r.ViolationCount() > 0 }
+
 // genCase: model traces once, then every schedule in lock-step.
 func (w *worker) genCase(c Case, idx int64, histLen int, scheds []schedule) {
 	r := w.r
+	if stopEarly(r) {
+		return
+	}
 	traces, nodes, unsup := modelTraces(c.Prog, histLen)
 	if unsup != "" {
 		r.Add("model_unsupported_bodies", 1)
@@ -579,7 +672,7 @@ func (w *worker) genCase(c Case, idx int64, histLen int, scheds []schedule) {
 				h[i].Ctx = sc.ctx[i%len(sc.ctx)]
 			}
 			cold := si == 0 && ti == 0 && idx%16 == 0
-			n, vc, class := w.runGenHistory(c, src, h, cold)
+			n, vc, class := w.runGenHistory(c, src, h, cold, sc.oneRun)
 			r.Transitions(int64(n))
 			if vc != nil {
 				w.report(class, vc)
@@ -630,7 +723,7 @@ func expectGen(p *gm.Program, hist []Step) (h []Step, ok bool) {
 }
 
 // failsAs runs (p, hist) on a fresh engine against a fresh model and returns the failure class ("" = passes).
-func failsAs(part string, name string, p *gm.Program, hist []Step, batch bool) (class string, out *VCase) {
+func failsAs(part string, name string, p *gm.Program, hist []Step, batch, oneRun bool) (class string, out *VCase) {
 	w := &worker{}
 	c := Case{Name: name, Prog: p}
 	switch part {
@@ -639,7 +732,7 @@ func failsAs(part string, name string, p *gm.Program, hist []Step, batch bool) (
 		if !ok {
 			return "", nil
 		}
-		_, out, class = w.runGenHistory(c, p.JS(false), h, true)
+		_, out, class = w.runGenHistory(c, p.JS(false), h, true, oneRun)
 	case "async":
 		exp, unsup := modelAsync(p, hist, batch)
 		if unsup != "" {
@@ -660,7 +753,7 @@ func signatureOf(vc *VCase, class string) (sig string, minProg *gm.Program, minH
 		hist = hist[:vc.At+1]
 	}
 	fails := func(p *gm.Program, h []Step) bool {
-		c, _ := failsAs(vc.Part, vc.Name, p, h, vc.Batch)
+		c, _ := failsAs(vc.Part, vc.Name, p, h, vc.Batch, vc.OneRun)
 		return c == class
 	}
 	if vc.At < 0 {
@@ -668,7 +761,11 @@ func signatureOf(vc *VCase, class string) (sig string, minProg *gm.Program, minH
 	}
 	minProg, minHist = shrink(vc.Prog, hist, vc.Part == "async", fails, 600)
 	if vc.Part == "gen" {
-		sig = "gen|" + bodyText(minProg, false) + "|" + histText(minHist) + "|" + class
+		ht := histText(minHist)
+		if vc.OneRun {
+			ht += " [one script run]"
+		}
+		sig = "gen|" + bodyText(minProg, false) + "|" + ht + "|" + class
 	} else {
 		sig = "async|" + bodyText(minProg, true) + "|" + asyncHistText(minHist, vc.Batch) + "|" + class
 	}
@@ -684,7 +781,7 @@ func (w *worker) report(class string, vc *VCase) {
 		return
 	}
 	for i := 0; i < 5; i++ {
-		c2, _ := failsAs(vc.Part, vc.Name, vc.Prog, vc.History, vc.Batch)
+		c2, _ := failsAs(vc.Part, vc.Name, vc.Prog, vc.History, vc.Batch, vc.OneRun)
 		if c2 != class {
 			if c2 == "" {
 				c2 = "passes"
@@ -733,7 +830,7 @@ func replay(r *core.Run, raw json.RawMessage) {
 		r.Violation("replay|bad-case", err.Error(), nil)
 		return
 	}
-	class, out := failsAs(vc.Part, vc.Name, vc.Prog, vc.History, vc.Batch)
+	class, out := failsAs(vc.Part, vc.Name, vc.Prog, vc.History, vc.Batch, vc.OneRun)
 	if out != nil {
 		sig, mp, mh := signatureOf(out, class)
 		out.MinSrc = bodyText(mp, vc.Part == "async")
